@@ -108,13 +108,40 @@ def run_case(case):
         qs = corpus.derived_queries(rng, sig, conds, 6 if len(sig) <= 30 else 3, layers=corpus.real_partition(impl.mk_bb(sig, conds)))
         modes = [False, True][:1 + (rng.random() < 0.3)]
         mk = lambda: corpus.load(path)[0]
+    rounds = [None]
+    if kind == 'small-strict' and len(conds) >= 2 and rng.random() < 0.25:
+        # history: ONE BeliefBase object serves all operators; then a rule is replaced in place under its key
+        # (by one of the queries, if the base stays consistent) and all operators are asked again through new
+        # managers.  The inclusions must hold among the answers for the edited base as well.
+        shared = impl.mk_bb(sig, conds)
+        mk = lambda: shared
+        for _ in range(12):
+            j = rng.randrange(len(conds))
+            newc = rng.choice(qs) if rng.random() < 0.7 else \
+                gen.rand_base(rng, nat=len(sig), ncond=1, depth=rng.choice([0, 1, 2]), p_const=0.0)[1][0]
+            if newc[1] == fml.BOT or not set(fml.atoms(newc[0], fml.atoms(newc[1]))) <= set(sig):
+                continue
+            conds2 = list(conds)
+            conds2[j] = newc
+            if newc != conds[j] and gen.classify(sig, conds2)[0] == 'strong':
+                rounds = [None, (j, newc)]
+                bump('in_place_edit_histories')
+                break
     bump('kind', kind)
     bump('atoms', str(10 * (len(sig) // 10)) + '+')
     bdesc = {'source': src, 'atoms': len(sig), 'conditionals': len(conds)}
     if len(conds) <= 8:
         bdesc.update(base_desc(sig, conds))
-    for weakly in modes:
+    for edit, weakly in [(e, w) for e in rounds for w in modes]:
         mode = 'extended' if weakly else 'strict'
+        if edit is not None:
+            j, newc = edit
+            k = list(shared.conditionals.keys())[j]
+            nc = impl.mk_cond(*newc)
+            nc.index = k
+            shared.conditionals[k] = nc
+            bdesc = dict(bdesc, replaced_in_place={'position': j, 'by': fml.cond_text(*newc)})
+            mode += ':after-in-place-edit'
         cols = {}
         for (system, p) in impl.CONFIGS:
             if system == 'c-inference' and (weakly or len(conds) > 30):
